@@ -119,7 +119,12 @@ func (e *Encoder) stdlibCall(callee *ssa.Function, cm *ssa.CallCommon, args []Va
 			if little {
 				sh = i
 			}
-			terms = append(terms, fmt.Sprintf("(* %s %s)", byteAt(s, int64(i)), intLitS(pow2(8*sh))))
+			b := byteAt(s, int64(i))
+			if r := c.inRange(u8, b); r != "" {
+				// the bytes read are bytes (cells of a []byte hold 0..255)
+				c.assume(implies(pc, r))
+			}
+			terms = append(terms, fmt.Sprintf("(* %s %s)", b, intLitS(pow2(8*sh))))
 		}
 		return "(+ " + strings.Join(terms, " ") + ")"
 	}
@@ -299,6 +304,33 @@ func (e *Encoder) stdlibCall(callee *ssa.Function, cm *ssa.CallCommon, args []Va
 		c.assume(implies(pc, and(c.cmp("<=", intT, ln, kp), c.cmp("<", intT, kp, c.lit(intT, pow2(40))))))
 		res := fmt.Sprintf("(ite (= (sbase %s) lnil) (mkslice lnil %s %s %s) (mkslice %s %s %s %s))", args[0].S, c.idxLit(0), c.idxLit(0), c.idxLit(0), loc, c.idxLit(0), ln, kp)
 		return Val{T: resT, S: c.define("clone", "Slice", res)}, true
+	case n == "slices.Grow" && len(args) == 2:
+		// slices.Grow(s, n) (library model): panics for n < 0; returns s itself when cap(s)-len(s) >= n, otherwise
+		// a new array with the same len(s) elements and room for n more. Existing memory is unchanged.
+		sl, ok := args[0].T.Underlying().(*types.Slice)
+		if !ok || !scalarElem(sl.Elem()) {
+			return Val{}, false
+		}
+		use()
+		s, cnt := args[0], args[1]
+		e.panicObl("bounds", "slices.Grow needs n >= 0", pc, c.cmp("<=", intT, c.idxLit(0), cnt.S))
+		elem := sl.Elem()
+		key, srt := c.arrKey(elem), c.arrSort(elem)
+		A := st.get(c, key, srt)
+		loc := e.alloc(st)
+		ln, cp, off := fmt.Sprintf("(slen %s)", s.S), fmt.Sprintf("(scap %s)", s.S), fmt.Sprintf("(soff %s)", s.S)
+		kp := c.fresh("growcap")
+		c.declare(kp, c.idx())
+		need := c.binopIdx("+", ln, cnt.S)
+		c.assume(implies(pc, and(c.cmp("<=", intT, need, kp), c.cmp("<", intT, kp, c.lit(intT, pow2(40))))))
+		row := c.fresh("grown")
+		c.declare(row, fmt.Sprintf("(Array %s %s)", c.idx(), c.sortOf(elem)))
+		c.assume(implies(pc, fmt.Sprintf("(forall ((i!g %s)) (! (=> %s (= (select %s i!g) (select (select %s (sbase %s)) %s))) :pattern ((select %s i!g))))",
+			c.idx(), and(c.cmp("<=", intT, c.idxLit(0), "i!g"), c.cmp("<", intT, "i!g", ln)), row, A, s.S, c.binopIdx("+", off, "i!g"), row)))
+		st.mem[key] = c.define("M_"+key, srt, fmt.Sprintf("(store %s %s %s)", A, loc, row))
+		fits := c.cmp("<=", intT, cnt.S, c.binopIdx("-", cp, ln))
+		res := fmt.Sprintf("(ite %s %s (mkslice %s %s %s %s))", fits, s.S, loc, c.idxLit(0), ln, kp)
+		return Val{T: resT, S: c.define("grow", "Slice", res)}, true
 	case n == "io.ReadFull" && len(args) == 2:
 		// io.ReadFull(r, buf) (trusted library contract): only buf's elements change; 0 <= n <= len(buf);
 		// err == nil exactly when n == len(buf). The reader's own state is the heap of an interface value: havoc.
